@@ -164,7 +164,7 @@ Proof.
     destruct R as (e' & rd' & E1 & E2 & E3 & E4 & E5 & _).
     rewrite E1. cbn [go_bind].
     assert (Hl : (length got <= 8)%nat) by (unfold lenN in L; lia).
-    rewrite go_slice_ok_full, go_slice_full. cbn [andb].
+    rewrite ?go_slice_ok_full, ?go_slice_full. cbn [andb].
     unfold go_len at 1. rewrite fill_zeros_len by exact Hl. cbn [Z.leb Z.compare Z.of_nat Pos.of_succ_nat Pos.succ Pos.compare Pos.compare_cont].
     unfold binary_LE_Uint64, go_len. rewrite fill_zeros_len by exact Hl.
     cbn [Z.leb Z.compare Z.of_nat Pos.of_succ_nat Pos.succ Pos.compare Pos.compare_cont].
@@ -524,7 +524,7 @@ Proof.
   change (go_make_bytes 8) with (repeat 0%N 8). change (8 <=? go_len (repeat 0%N 8)) with true. cbv iota.
   unfold binary_LE_PutUint64. change (8 <=? go_len (repeat 0%N 8)) with true. cbv iota.
   change (skipn 8 (repeat 0%N 8)) with (@nil N). rewrite app_nil_r.
-  rewrite go_slice_ok_full, go_slice_full.
+  rewrite ?go_slice_ok_full, ?go_slice_full.
   rewrite enc_write_ok by (rewrite ?le64_go_len; lia). cbn [go_bind]. rewrite le64_go_len.
   rewrite wrap_u64_small by (wraps; unfold two64 in *; lia). rewrite N2Z.id. reflexivity.
 Qed.
